@@ -92,6 +92,7 @@ func Solve(dir, name string, sc *Script, timeoutS int) *SolverResult {
 	// cvc5 wants an explicit logic (and warns on its first output line otherwise); z3 is faster without one
 	cvcFile := filepath.Join(dir, sanitizeFile(name)+".cvc5.smt2")
 	cvcText := strings.Replace(text, "(set-option :produce-models true)\n", "(set-option :produce-models true)\n(set-logic ALL)\n", 1)
+	cvcText = cvc5ConstArrays(cvcText)
 	if err := os.WriteFile(cvcFile, []byte(cvcText), 0o644); err != nil {
 		return &SolverResult{Status: "error", Output: err.Error()}
 	}
@@ -269,4 +270,101 @@ func smtIntValue(v string) (string, bool) {
 		}
 	}
 	return v, v != ""
+}
+
+// cvc5ConstArrays: cvc5 accepts ((as const (Array K V)) v) only for a value v. A constant array whose default mentions an
+// uninterpreted constant (the empty string, the nil error, ...) is replaced by a declared constant without content
+// (weaker: nothing is known about its elements), so that cvc5 can take part in the race at all.
+func cvc5ConstArrays(text string) string {
+	const marker = "((as const "
+	if !strings.Contains(text, marker) {
+		return text
+	}
+	var out strings.Builder
+	decls := map[string]string{} // original text -> constant name
+	var order []string
+	sorts := map[string]string{}
+	i := 0
+	for i < len(text) {
+		j := strings.Index(text[i:], marker)
+		if j < 0 {
+			out.WriteString(text[i:])
+			break
+		}
+		j += i
+		// find the end of the whole ((as const S) v) term by balancing parentheses
+		depth, k := 0, j
+		for k < len(text) {
+			if text[k] == '|' { // quoted symbol
+				k++
+				for k < len(text) && text[k] != '|' {
+					k++
+				}
+			} else if text[k] == '(' {
+				depth++
+			} else if text[k] == ')' {
+				depth--
+				if depth == 0 {
+					break
+				}
+			}
+			k++
+		}
+		if k >= len(text) {
+			out.WriteString(text[i:])
+			break
+		}
+		whole := text[j : k+1]
+		// sort: between "((as const " and the matching ")"
+		sd, m := 0, j+len(marker)
+		start := m
+		for m < len(text) {
+			if text[m] == '(' {
+				sd++
+			} else if text[m] == ')' {
+				if sd == 0 {
+					break
+				}
+				sd--
+			}
+			m++
+		}
+		sortText := text[start:m]
+		arg := strings.TrimSpace(text[m+1 : k])
+		isValue := !strings.ContainsAny(arg, "|$") && !strings.Contains(arg, "!")
+		if isValue {
+			out.WriteString(text[i : k+1])
+			i = k + 1
+			continue
+		}
+		name, ok := decls[whole]
+		if !ok {
+			name = fmt.Sprintf("cvc5_constarr_%d", len(decls))
+			decls[whole] = name
+			sorts[name] = sortText
+			order = append(order, name)
+		}
+		out.WriteString(text[i:j])
+		out.WriteString(name)
+		i = k + 1
+	}
+	res := out.String()
+	if len(order) == 0 {
+		return res
+	}
+	var d strings.Builder
+	for _, n := range order {
+		d.WriteString("(declare-const " + n + " " + sorts[n] + ")\n")
+	}
+	// declarations go before the first definition / assertion (after all sort declarations)
+	pos := len(res)
+	for _, key := range []string{"\n(define-fun ", "\n(assert ", "\n(declare-fun ", "\n(declare-const "} {
+		if p := strings.Index(res, key); p >= 0 && p < pos {
+			pos = p
+		}
+	}
+	if pos == len(res) {
+		return res
+	}
+	return res[:pos+1] + d.String() + res[pos+1:]
 }
